@@ -129,7 +129,7 @@ class Built:
             return ['C', enc(obj.text or ''), enc(obj.tail)]
         return ['P', enc(desc[1]), enc(desc[2] or ''), enc(obj.tail)]
 
-    def line(self, ops: list[str]) -> str:
+    def line(self, ops: list[str], lz: str = '_/_') -> str:
         c = self.case
         ns = c['ns'] or []
         nstoks = [str(len(ns))] + [t for k, v in ns for t in (enc(k), enc(v))]
@@ -147,7 +147,7 @@ class Built:
         path = '.'.join(map(str, c['path'])) or '_'
         frag = {None: 'N', True: 'T', False: 'F'}[c['frag']]
         return (f"T lib={self.lib} tree={int(c['tree'])} frag={frag} ns={','.join(nstoks)} path={path} "
-                f"pro={','.join(pro)} top={top} epi={','.join(epi)} ops={';'.join(ops) or '_'}")
+                f"pro={','.join(pro)} top={top} epi={','.join(epi)} lz={lz} ops={';'.join(ops) or '_'}")
 
 
 KIND = {'document': 'D', 'element': 'E', 'namespace': 'N', 'attribute': 'A', 'text': 'T',
@@ -163,8 +163,12 @@ def err_str(e: Exception) -> str:
     return f'ERR:OTHER:{type(e).__name__}'
 
 
-def run_impl(b: Built):
-    """-> (root_node | None, nodes list, dump string)"""
+def idxs_str(objs, index) -> str:
+    return '.'.join(str(index.get(id(x), '?')) for x in objs) or '_'
+
+
+def run_impl(b: Built, rng=None):
+    """-> (root_node | None, nodes list, dump string, lazy-walk observations | None)"""
     from elementpath import get_node_tree
     from elementpath.tree_builders import build_node_tree, build_lxml_node_tree
     c = b.case
@@ -177,8 +181,30 @@ def run_impl(b: Built):
                 root = build_node_tree(b.root, ns, fragment=c['frag'])
         else:
             root = get_node_tree(b.root, ns, fragment=c['frag'])
+        walks = None
+        if rng is not None:
+            # before anything lazy is built: iter_lazy / iter_descendants, then build some lazy lists
+            l0 = list(root.iter_lazy())
+            d0 = list(root.iter_descendants())
+            elems = [n for n in d0 if n.node_kind == 'element']
+            mode = rng.random()
+            pr = 0.0 if mode < 0.15 else (1.0 if mode < 0.3 else 0.35)
+            ns_sel = [e for e in elems if rng.random() < pr]
+            at_sel = [e for e in elems if rng.random() < pr]
+            for e in ns_sel:
+                e.namespace_nodes
+            for e in at_sel:
+                e.attributes
+            l1 = list(root.iter_lazy())
+            d1 = list(root.iter_descendants())
+            walks = (l0, d0, ns_sel, at_sel, l1, d1)
         nodes = list(root.iter())
         index = {id(n): k for k, n in enumerate(nodes)}
+        if walks is not None:
+            l0, d0, ns_sel, at_sel, l1, d1 = walks
+            walks = {'lz': f'{idxs_str(ns_sel, index)}/{idxs_str(at_sel, index)}',
+                     'lazy0': idxs_str(l0, index), 'lazy1': idxs_str(l1, index),
+                     'desc': idxs_str(d0, index) if [id(x) for x in d0] == [id(x) for x in d1] else 'UNSTABLE'}
         out = []
         flaws = []
         for k, n in enumerate(nodes):
@@ -206,9 +232,9 @@ def run_impl(b: Built):
         dump = '|'.join(out)
         if flaws:
             dump += '!' + ','.join(sorted(set(flaws))[:4])
-        return root, nodes, dump
+        return root, nodes, dump, walks
     except Exception as e:   # whatever the builders raise is part of their behaviour
-        return None, [], err_str(e)
+        return None, [], err_str(e), None
 
 
 def spec_view_of_impl(dump: str) -> str:
@@ -244,7 +270,11 @@ def strip_flags(spec: str):
 # ------------------------------------------------------------------------------------------
 OP_EXPR = {'is': '$a is $b', 'prec': '$a << $b', 'foll': '$a >> $b', 'union': '$A union $B',
            'bar': '$A | $B', 'inter': '$A intersect $B', 'except': '$A except $B',
-           'inner': 'innermost($A)', 'outer': 'outermost($A)', 'root': 'root($a)'}
+           'inner': 'innermost($A)', 'outer': 'outermost($A)', 'root': 'root($a)', 'root0': 'root()',
+           'chain': '$A | $B | $C', 'cprec': '$a << $b', 'cfoll': '$a >> $b', 'croot': 'root($a)',
+           'lzsub': '(python) node.iter_lazy()', 'descsub': '(python) node.iter_descendants()',
+           'reget': '(python) get_node_tree(node, fragment=f)', 'ecmp': '$a (is|<<|>>) $b with one empty operand',
+           'eroot': 'root($a) with $a := ()', 'citem': '(python) XPathContext(root, item=node.value).item'}
 _tokens: dict = {}
 
 
@@ -264,12 +294,70 @@ def run_op(root, nodes, op: str) -> str:
     def lst(s):
         return [] if s == '_' else [nodes[int(k)] for k in s.split('.')]
     try:
+        if name == 'ecmp':
+            k = nodes[int(parts[3])]
+            variables = {'a': [] if parts[2] == 'L' else k, 'b': k if parts[2] == 'L' else []}
+            res = list(op_token(parts[1]).select(XPathContext(root=root, variables=variables)))
+            return '-' if not res else f'?{res!r}'
+        if name == 'eroot':
+            res = list(op_token('root').select(XPathContext(root=root, variables={'a': []})))
+            return '-' if not res else f'?{res!r}'
+        if name == 'citem':
+            k = int(parts[1])
+            ctx = XPathContext(root=root, item=nodes[k].value)
+            return str(idx.get(id(ctx.item), '?'))
+        if name in ('lzsub', 'descsub'):
+            n = nodes[int(parts[1])]
+            return idxs_str(n.iter_lazy() if name == 'lzsub' else n.iter_descendants(), idx)
+        if name == 'reget':
+            from elementpath import get_node_tree
+            frag = {'N': None, 'T': True, 'F': False}[parts[1]]
+            try:
+                rn = get_node_tree(nodes[int(parts[2])], fragment=frag)
+            except Exception as e:
+                return 'ERR:missingRoot' if 'Missing document root' in str(e) else err_str(e)
+            top = rn.root_node
+            return (f"{rn.position},{-1 if rn.parent is None else rn.parent.position},"
+                    f"{'.'.join(str(x.position) for x in rn.iter())},{'.'.join(str(x.position) for x in top.iter())}")
+        if name == 'croot':
+            k = int(parts[2])
+            if parts[1] == '-':
+                ctx = XPathContext(item=nodes[k])
+                tok = op_token('root0' if k % 2 else 'croot')
+                if not k % 2:
+                    ctx = XPathContext(item=nodes[k], variables={'a': nodes[k]})
+            elif k % 2:
+                ctx, tok = XPathContext(root=nodes[int(parts[1])], item=nodes[k]), op_token('root0')
+            else:
+                ctx, tok = XPathContext(root=nodes[int(parts[1])], variables={'a': nodes[k]}), op_token('croot')
+            res = list(tok.select(ctx))
+            return '-' if not res else str(idx.get(id(res[0]), '?'))
+        if name in ('cprec', 'cfoll'):
+            variables = {'a': nodes[int(parts[2])], 'b': nodes[int(parts[3])]}
+            if parts[1] == '-':
+                ctx = XPathContext(item=nodes[int(parts[2])], variables=variables)
+            else:
+                ctx = XPathContext(root=nodes[int(parts[1])], variables=variables)
+            try:
+                res = list(op_token(name).select(ctx))
+            except Exception as e:
+                return '-' if 'FOCA0002' in str(e) else err_str(e)
+            return '-' if not res else ('T' if res[0] is True else 'F' if res[0] is False else f'?{res[0]!r}')
+        if name == 'chain':
+            ctx = XPathContext(root=root, variables={'A': lst(parts[1]), 'B': lst(parts[2]), 'C': lst(parts[3])})
+            res = list(op_token(name).select(ctx))
+            return '.'.join(str(idx.get(id(x), '?')) for x in res) or '_'
         if name in ('is', 'prec', 'foll'):
             variables = {'a': nodes[int(parts[1])], 'b': nodes[int(parts[2])]}
         elif name == 'root':
             variables = {'a': nodes[int(parts[1])]}
         elif name in ('inner', 'outer'):
             variables = {'A': lst(parts[1])}
+            if nodes[0].node_kind == 'element' and len(parts[1]) % 2:
+                # a fragment context (no document): iter_ancestors stops at the context root
+                ctx = XPathContext(root=root, fragment=True, variables=variables)
+                res = list(op_token(name).select(ctx))
+                return '.'.join(str(idx.get(id(x), '?')) for x in res) or '_'
         else:
             variables = {'A': lst(parts[1]), 'B': lst(parts[2])}
         ctx = XPathContext(root=root, variables=variables)
@@ -283,10 +371,12 @@ def run_op(root, nodes, op: str) -> str:
         return err_str(e)
 
 
-def gen_ops(rng, n: int, count: int) -> list[str]:
+def gen_ops(rng, n: int, count: int, kinds: str = '') -> list[str]:
     ops = []
     if n == 0:
         return ops
+    containers = [k for k, ch in enumerate(kinds) if ch in 'DE'] or [0]
+    elements = [k for k, ch in enumerate(kinds) if ch == 'E']
 
     def pick():
         return rng.randrange(n)
@@ -298,7 +388,38 @@ def gen_ops(rng, n: int, count: int) -> list[str]:
         return '.'.join(map(str, l)) or '_'
     for _ in range(count):
         name = rng.choice(['is', 'prec', 'foll', 'union', 'inter', 'except', 'inner', 'outer', 'root', 'union',
-                           'prec'])
+                           'prec', 'chain', 'lzsub', 'descsub', 'croot', 'croot', 'cprec', 'cfoll', 'misc'])
+        if name == 'misc':
+            r = rng.random()
+            wrapped = [k for k, ch in enumerate(kinds) if ch in 'ECP']
+            if r < 0.3:
+                ops.append(f"ecmp:{rng.choice(['is', 'prec', 'foll'])}:{rng.choice('LR')}:{pick()}")
+            elif r < 0.4:
+                ops.append('eroot')
+            elif wrapped:
+                ops.append(f'citem:{rng.choice(wrapped)}')
+            continue
+        if name == 'chain':
+            ops.append(f'chain:{s(some(4))}:{s(some(4))}:{s(some(4))}')
+            continue
+        if name in ('lzsub', 'descsub'):
+            if elements:
+                ops.append(f'{name}:{rng.choice(elements)}')
+            continue
+        if name in ('croot', 'cprec', 'cfoll'):
+            r = rng.random()
+            c = '-' if r < 0.15 else (0 if r < 0.4 else rng.choice(containers))
+            if name == 'croot':
+                ops.append(f'croot:{c}:{pick()}')
+            else:
+                a = pick()
+                b = pick()
+                if c != '-' and rng.random() < 0.6 and kinds:
+                    # both operands below the context root most of the time
+                    lo = int(c)
+                    a, b = rng.randrange(lo, n), rng.randrange(lo, n)
+                ops.append(f'{name}:{c}:{a}:{b}')
+            continue
         if name in ('is', 'prec', 'foll'):
             a = pick()
             b = a if rng.random() < 0.15 else pick()
@@ -306,11 +427,14 @@ def gen_ops(rng, n: int, count: int) -> list[str]:
         elif name == 'root':
             ops.append(f'root:{pick()}')
         elif name in ('inner', 'outer'):
-            ops.append(f'{name}:{s(some(7))}')
+            ops.append(f'{name}:{s(some(14 if rng.random() < 0.25 else 7))}')
         else:
             xs = some()
             ys = [rng.choice(xs) if xs and rng.random() < 0.4 else pick() for _ in range(rng.randint(0, 5))]
             ops.append(f'{name}:{s(xs)}:{s(ys)}')
+    if count and rng.random() < 0.5:
+        # one re-entry of get_node_tree with a built node, last (fragment=False may re-root the tree)
+        ops.append(f"reget:{rng.choice('NTF')}:{rng.choice(containers)}")
     return ops
 
 
@@ -326,7 +450,7 @@ def gen_text(rng):
     return rng.choice(TEXTS)
 
 
-def gen_node(rng, depth, budget, lxml, wide):
+def gen_node(rng, depth, budget, lxml, wide, inherited=()):
     """returns (node, used)"""
     r = rng.random()
     if depth > 0 and r < 0.12:
@@ -348,8 +472,11 @@ def gen_node(rng, depth, budget, lxml, wide):
         rng.shuffle(pfx)
         for k in range(nns):
             nsdecl.append((pfx[k], rng.choice(['u0', 'u1', 'u2', 'u3'])))
-        if not any(p is None for p, _ in nsdecl) and False:
-            pass
+        if inherited and rng.random() < 0.3:
+            # shadow a prefix declared by an ancestor with another URI
+            sp = rng.choice(list(inherited))
+            nsdecl = [(p_, u) for p_, u in nsdecl if p_ != sp] + [(sp, rng.choice(['v0', 'v1']))]
+        inherited = tuple(set(inherited) | {p_ for p_, _ in nsdecl})
     kids = []
     used = 1
     if depth < 5:
@@ -357,7 +484,7 @@ def gen_node(rng, depth, budget, lxml, wide):
         for _ in range(nk):
             if used >= budget:
                 break
-            k, u = gen_node(rng, depth + 1, budget - used, lxml, wide)
+            k, u = gen_node(rng, depth + 1, budget - used, lxml, wide, inherited)
             kids.append(k)
             used += u
     tail = gen_text(rng) if depth > 0 else (gen_text(rng) if rng.random() < 0.2 else None)
@@ -375,6 +502,7 @@ def gen_siblings(rng):
 
 
 NS_ARGS = [None, None, [], [('xml', XML_NS)], [('xml', XML_NS), ('p', 'u1')], [('', 'u0')],
+           [('xml', 'not-the-xml-namespace'), ('p', 'u1'), ('q', 'u1')], [('', ''), ('u1', 'u1')],
            [('', 'u0'), ('q', 'u2'), ('xml', XML_NS), ('r', 'u3')],
            [('p', 'u1'), ('q', 'u2'), ('r', 'u3'), ('s', 'u1'), ('t', 'u0'), ('w', 'u5')],
            [('tns', 'u1')]]
@@ -476,12 +604,13 @@ def compare(run: Run, cases: list[dict], nops: int = 6, stats: bool = True) -> N
         except Exception as e:   # the library refused the construction: not a case
             st.count(f'construction-refused:{type(e).__name__}')
             continue
-        root, nodes, dump = run_impl(b)
-        ops = gen_ops(run.rng, len(nodes), nops) if root is not None else []
-        built.append((c, b, root, nodes, dump, ops))
-    lines = [b.line(ops) for (_, b, _, _, _, ops) in built]
+        root, nodes, dump, walks = run_impl(b, run.rng)
+        kinds = ''.join(KIND.get(n.node_kind, '?') for n in nodes)
+        ops = gen_ops(run.rng, len(nodes), nops, kinds) if root is not None else []
+        built.append((c, b, root, nodes, dump, ops, walks))
+    lines = [b.line(ops, walks['lz'] if walks else '_/_') for (_, b, _, _, _, ops, walks) in built]
     answers = run.driver('C02', lines)
-    for (c, b, root, nodes, dump, ops), line, ans in zip(built, lines, answers):
+    for (c, b, root, nodes, dump, ops, walks), line, ans in zip(built, lines, answers):
         case = {'line': line, 'case': case_json(c)}
         if not ans.startswith('model='):
             run.disagree(Disagreement(case, 'driver:' + ans, what='protocol'))
@@ -502,6 +631,18 @@ def compare(run: Run, cases: list[dict], nops: int = 6, stats: bool = True) -> N
             st.count(f'nodes:{min(len(nodes), 64) // 8 * 8}+')
             if c['pro'] or c['epi']:
                 st.count('lxml-doc-siblings')
+            if c['lib'] == 'L' and b.top is not None:
+                maps = [(e, dict(e.nsmap)) for e in b.top.iter() if isinstance(e.tag, str)]
+                if len({len(m) for _, m in maps}) > 1:
+                    st.count('lxml-nsmap-size-varies-in-tree')
+                if any(e.getparent() is not None and any(m.get(k) != v for k, v in e.getparent().nsmap.items() if k in m)
+                       for e, m in maps):
+                    st.count('lxml-prefix-redeclared-at-depth')
+            if c['lib'] == 'E' and c['ns'] and b.top is not None:
+                used = {t.tag[1:].split('}')[0] for t in b.top.iter() if isinstance(t.tag, str) and t.tag[0] == '{'}
+                uris = {v for _, v in c['ns']}
+                st.count('etree-namespaces-arg:' + ('covers-document-uris' if used and used <= uris else
+                                                    'partly-or-not-covering' if used else 'document-without-namespaces'))
             if dump.startswith('ERR'):
                 st.count('impl:' + dump)
             elif nodes and nodes[0].node_kind == 'document':
@@ -529,24 +670,71 @@ def compare(run: Run, cases: list[dict], nops: int = 6, stats: bool = True) -> N
             continue
         if root is None:
             continue
+        if walks is not None:
+            # iter_lazy before / after building some lazy lists, iter_descendants: vs model and vs the spec
+            # (eager items + the namespace / attribute items of the chosen elements, in document order)
+            srecs = [r.split(',') for r in spec.split('|')] if spec != 'ERR' else []
+            ns_sel, at_sel = [set() if x == '_' else set(map(int, x.split('.'))) for x in walks['lz'].split('/')]
+            eager = [k for k, r in enumerate(srecs) if r[0] not in 'NA']
+            lazy1 = [k for k, r in enumerate(srecs) if r[0] not in 'NA' or
+                     (r[0] == 'N' and int(r[2]) in ns_sel) or (r[0] == 'A' and int(r[2]) in at_sel)]
+
+            def j(l):
+                return '.'.join(map(str, l)) or '_'
+            for key, sp in (('lazy0', j(eager)), ('lazy1', j(lazy1)), ('desc', j(eager))):
+                if stats:
+                    st.evaluations += 1
+                    st.count('walk:' + key)
+                wcase = dict(case, walk=key, lz=walks['lz'])
+                if walks[key] != sp:
+                    run.disagree(Disagreement(wcase, walks[key], f.get(key), spec=sp, what='walk:' + key,
+                                              site='xpath_nodes.py iter_lazy / iter_descendants'))
+                elif walks[key] != f.get(key):
+                    run.disagree(Disagreement(wcase, walks[key], f.get(key), what='walk-model:' + key))
+            if stats:
+                st.count('lazy-state:' + ('nothing-built' if not ns_sel and not at_sel else
+                                          'all-built' if len(ns_sel) == len(at_sel) == sum(r[0] == 'E' for r in srecs)
+                                          else 'partly-built'))
         opans = f['ops'].split(';') if f['ops'] != '_' else []
+        checked_unchanged = False
         for op, ms in zip(ops, opans):
             m, _, s = ms.partition('/')
-            impl = run_op(root, nodes, op)
             name = op.split(':')[0]
+            if name == 'reget' and not checked_unchanged:
+                # the tree must be unchanged by the evaluations so far (reget fragment=False may re-root it)
+                checked_unchanged = True
+                if '|'.join(run_dump_again(root)) != dump.partition('!')[0]:
+                    run.disagree(Disagreement(case, 'changed-after-ops', dump, what='positions-dump'))
+            impl = run_op(root, nodes, op)
+            region = s.endswith('!')
+            s = s.rstrip('!')
             if stats:
                 st.evaluations += 1
                 st.count('op:' + name)
                 if impl.startswith('ERR'):
                     st.count('op-impl:' + impl)
+                if name in ('croot', 'cprec', 'cfoll'):
+                    st.count(f'ctx-root:{"none" if op.split(":")[1] == "-" else ("tree-root" if op.split(":")[1] == "0" else "inner")}'
+                             f'{"/operand-outside" if region else ""}')
             ocase = dict(case, op=op, expr=OP_EXPR[name])
+            if s == '-' and name == 'reget':
+                if impl != m:
+                    run.disagree(Disagreement(ocase, impl, m, what='reget',
+                                              site='tree_builders.get_node_tree l. 49-61, get_document_node, getroot'))
+                continue
             if impl != s:
-                run.disagree(Disagreement(ocase, impl, m, spec=s, what='operator:' + name,
-                                          site='_xpath2_operators.py / _xpath1_operators.py / _xpath30_functions.py'))
+                tags = ['F02e'] if region else []
+                if stats and tags:
+                    st.count('F02e-region-hit')
+                run.disagree(Disagreement(ocase, impl, m, spec=s, what='operator:' + name, tags=tags,
+                                          site='_xpath2_operators.py / _xpath1_operators.py / _xpath30_functions.py'
+                                               ' / xpath_context.get_root'))
+                if impl != m:
+                    run.disagree(Disagreement(ocase, impl, m, what='operator-model:' + name))
             elif impl != m:
                 run.disagree(Disagreement(ocase, impl, m, what='operator-model:' + name))
         # the tree must be unchanged by the evaluations
-        if ops and '|'.join(run_dump_again(root)) != dump.partition('!')[0]:
+        if ops and not checked_unchanged and '|'.join(run_dump_again(root)) != dump.partition('!')[0]:
             run.disagree(Disagreement(case, 'changed-after-ops', dump, what='positions-dump'))
 
 
